@@ -83,6 +83,9 @@ static void build_dirty(Src& s, N& dst, const MV& m, A& a) {
 template <class N, class A>
 static void build_const(N& dst, const MV& m, A& a) {
   if (m.k == MV::Str) {
+    // any prefix of the big static buffer is borrowed as a slice of that ONE buffer (same start address, other length)
+    const std::string& big = kStatic[3];
+    if (m.s.size() <= big.size() && big.compare(0, m.s.size(), m.s) == 0 && !m.s.empty()) { dst.SetString(big.data(), m.s.size()); return; }
     for (auto& k : kStatic)
       if (k == m.s) { dst.SetString(k.data(), k.size()); return; }
     dst.SetString(m.s.data(), m.s.size(), a);
@@ -237,7 +240,10 @@ static void property(Src& s, Case& c) {
   // sprinkle static strings so that the const-string history has something to borrow
   {
     std::function<void(MV&)> f = [&](MV& x) {
-      if (x.k == MV::Str && s.coin(1, 4)) x.s = s.oneof(kStatic);
+      if (x.k == MV::Str && s.coin(1, 4)) {
+        x.s = s.oneof(kStatic);
+        if (s.coin(1, 2)) x.s = kStatic[3].substr(0, (size_t)s.pick(1, kStatic[3].size()));  // a slice of the shared buffer
+      }
       for (auto& e : x.a) f(e);
       for (auto& kv : x.o) f(kv.second);
     };
